@@ -15,6 +15,29 @@ func registerGhosts(fx *FnCtx) {
 	for _, g := range ghostInits {
 		g(fx)
 	}
+	// hash stream ghost: stream() is the sequence of tokens emitted so far, pending() whether the buffer is non-empty
+	fx.ghostFuncs["stream"] = func(ev *Evaluator, args []SVal) SVal {
+		return SVal{v: Val{t: ev.st.ghost["hashL"]}, sort: "Stream"}
+	}
+	fx.ghostFuncs["pending"] = func(ev *Evaluator, args []SVal) SVal {
+		return SVal{v: Val{t: ev.st.ghost["hashP"]}, typ: boolT}
+	}
+	// tok(L, x): L followed by the fixed-width token for the Go value x (tag = x's static type)
+	fx.ghostFuncs["tok"] = func(ev *Evaluator, args []SVal) SVal {
+		x := args[1]
+		if x.typ == nil {
+			unsupported("spec: tok() needs a Go-typed value")
+		}
+		t := x.typ
+		if b, ok := t.(*types.Basic); ok && b.Info()&types.IsUntyped != 0 {
+			unsupported("spec: tok() needs a typed value; convert it, e.g. uint64(x)")
+		}
+		bx := fx.box(x.v, t)
+		return SVal{v: Val{t: fmt.Sprintf("(sfix %s (itag %s) (ival %s))", args[0].v.t, bx, bx)}, sort: "Stream"}
+	}
+	fx.ghostFuncs["raw"+"tok"] = func(ev *Evaluator, args []SVal) SVal {
+		return SVal{v: Val{t: fmt.Sprintf("(sraw %s %s)", args[0].v.t, args[1].v.t)}, sort: "Stream"}
+	}
 	// remaining(r): how many more records the csv reader r will yield (ghost; finite input)
 	fx.ghostFuncs["remaining"] = func(ev *Evaluator, args []SVal) SVal {
 		return SVal{v: Val{t: "(select " + ev.st.ghost["csvrem"] + " " + args[0].v.t + ")"}, typ: intT}
@@ -35,12 +58,20 @@ var ghostInits []func(fx *FnCtx)
 
 func initGhostState(fx *FnCtx, st *State) {
 	st.ghost["csvrem"] = fx.s.declare("csvrem0", "(Array Ref Int)")
+	fx.s.global("Stream", "(declare-datatypes ((Stream 0)) (((snil) (sfix (sprev Stream) (stag Int) (sval Int)) (sraw (rprev Stream) (rstr String)))))")
+	fx.s.global("fixedsize", "(declare-fun fixedsize (Int) Bool)")
+	st.ghost["hashL"] = fx.s.declare("hashL0", "Stream")
+	st.ghost["hashP"] = fx.s.declare("hashP0", "Bool")
 }
 
 func ghostSortOf(k string) string {
 	switch k {
 	case "csvrem":
 		return "(Array Ref Int)"
+	case "hashL":
+		return "Stream"
+	case "hashP":
+		return "Bool"
 	}
 	return "Opaque"
 }
@@ -51,6 +82,15 @@ func extraMods(eng *Engine, callee *ssa.Function, c *ssa.CallCommon, m *Modset) 
 		m.add(types.Typ[types.String], false, false)
 		m.ghost["csvrem"] = true
 		return true
+	case "encoding/binary.Write":
+		m.ghost["hashL"] = true
+		m.ghost["hashP"] = true
+		return true
+	case "(*bytes.Buffer).Reset":
+		m.ghost["hashP"] = true
+		return true
+	case "(*bytes.Buffer).Bytes", "path/filepath.Join", "os.ReadDir", "os.ReadFile":
+		return true
 	}
 	return false
 }
@@ -58,6 +98,27 @@ func extraMods(eng *Engine, callee *ssa.Function, c *ssa.CallCommon, m *Modset) 
 func (fr *Frame) extraExternal(ins ssa.Instruction, fn *ssa.Function, c *ssa.CallCommon, args []Val, st *State) ([]Val, bool) {
 	fx := fr.fx
 	switch fn.String() {
+	case "encoding/binary.Write":
+		fx.trusted["binary.Write(buf, LittleEndian, v): for a fixed-size v appends exactly binary.Size(v) bytes, an injective function of v and of v's type, and returns nil; returns an error (and writes nothing) for other types; bool, sized integers, floats and named types of those are fixed-size, int and uint are not"] = true
+		a := args[2].t
+		st.ghost["hashL"] = fx.s.define("hashL", "Stream", fmt.Sprintf("(ite (fixedsize (itag %s)) (sfix %s (itag %s) (ival %s)) %s)", a, st.ghost["hashL"], a, a, st.ghost["hashL"]))
+		st.ghost["hashP"] = fx.s.define("hashP", "Bool", fmt.Sprintf("(or %s (fixedsize (itag %s)))", st.ghost["hashP"], a))
+		return []Val{{t: fx.errVal(st, "(fixedsize (itag "+a+"))")}}, true
+	case "(*bytes.Buffer).Bytes":
+		fx.trusted["(*bytes.Buffer).Bytes/Reset: the unread contents of the buffer / empties the buffer; never panic"] = true
+		n := fx.s.freshConst("buflen", "Int")
+		fx.s.assume(st.guard, "(>= "+n+" 0)")
+		return []Val{{t: fmt.Sprintf("(mkslice (- 1) 0 %s %s)", n, n)}}, true
+	case "(*bytes.Buffer).Reset":
+		st.ghost["hashP"] = "false"
+		return nil, true
+	case "path/filepath.Join":
+		fx.trusted["filepath.Join: a function of its arguments; never panics"] = true
+		return fr.havocResults(c, st), true
+	case "os.ReadDir", "os.ReadFile":
+		fx.trusted[fn.String()+": returns (fresh result, error); the file system is not part of the verified state; never panics"] = true
+		res := fr.havocResults(c, st)
+		return res, true
 	case "(*encoding/csv.Reader).Read":
 		fx.trusted["(*encoding/csv.Reader).Read: returns an error, or a record with exactly csv_nfields(r) >= 1 fields (FieldsPerRecord == 0: as many as the first record); the record is freshly allocated unless r.ReuseRecord is set, in which case it may share its backing array with records returned earlier by r (whose contents are then overwritten); a reader yields finitely many records; nothing else is modified; never panics"] = true
 		r := args[0].t
@@ -95,6 +156,19 @@ func (fr *Frame) extraExternal(ins ssa.Instruction, fn *ssa.Function, c *ssa.Cal
 }
 
 func (fr *Frame) extraInvoke(ins ssa.Instruction, c *ssa.CallCommon, recv Val, args []Val, st *State) ([]Val, bool) {
+	fx := fr.fx
+	it := typeKey(c.Value.Type())
+	if c.Method.Name() == "Write" && it == "hash.Hash" {
+		fx.trusted["hash.Hash.Write(p): appends p to the hashed byte stream; never fails, never panics"] = true
+		p := args[0].t
+		fx.s.global("bytes_of", "(declare-fun bytes_of (Int) String)")
+		isBuf := fmt.Sprintf("(= (sobj %s) (- 1))", p)
+		// flush discipline: a direct write while fixed-width tokens are still buffered would reorder the stream
+		fx.oblige("hash-order", fr.obName()+"/hash-order/"+fr.describe(c.Args[0]), "no direct write to the hash while tokens are buffered", st,
+			or(isBuf, not(st.ghost["hashP"])), ins.Pos(), []string{"C13"})
+		st.ghost["hashL"] = fx.s.define("hashL", "Stream", fmt.Sprintf("(ite %s %s (sraw %s (bytes_of (sobj %s))))", isBuf, st.ghost["hashL"], st.ghost["hashL"], p))
+		return fr.havocResults(c, st), true
+	}
 	return nil, false
 }
 
